@@ -8,9 +8,10 @@ import (
 
 func TestReplay(t *testing.T) {
 	verif.ReplayMain(map[string]func(){
-		"HarnessCompositeElements": HarnessCompositeElements,
-		"HarnessEndToEnd":          HarnessEndToEnd,
-		"HarnessManyStreams":       HarnessManyStreams,
-		"HarnessServerWire":        HarnessServerWire,
+		"HarnessCompositeElements":   HarnessCompositeElements,
+		"HarnessConcurrentSubscribe": HarnessConcurrentSubscribe,
+		"HarnessEndToEnd":            HarnessEndToEnd,
+		"HarnessManyStreams":         HarnessManyStreams,
+		"HarnessServerWire":          HarnessServerWire,
 	})
 }
